@@ -123,6 +123,9 @@ func (r *Run) Close() {
 	must(os.WriteFile(filepath.Join(r.OutDir, "stats.json"), b, 0o644))
 }
 
+// stopRun is panicked by a monitor after r.Fail when the implementation cannot continue; main recovers it
+type stopRun struct{}
+
 func must(err error) {
 	if err != nil {
 		panic(err)
